@@ -60,7 +60,8 @@ class DocCheck(core.Check):
         rnd = random.Random(case['docseed'])
         d = gdocs.random_document(rnd, size=case['size'], lang=case['lang'], kinds=FOCUS_SETS[case['focus']],
                                   max_depth=case['depth'], glossary_file=self.gls if case['gls'] else None,
-                                  end_pressure=case['endp'], pack=case['pack'], cref_file=self.sed)
+                                  end_pressure=case['endp'], pack=case['pack'], cref_file=self.sed,
+                                  max_nodes=250 if case['depth'] <= 7 else 700)
         return d
 
     def run_doc(self, case):
